@@ -125,7 +125,9 @@ static void check_eval_T(const EvalC &c, vf::Obs &o) {
   }
   for (size_t q = 0; q < xT.size(); q++) {
     const R x = exact(xT[q]);
-    const R got = exact(sp(xT[q]));
+    const T got_T = sp(xT[q]);
+    if constexpr (!exactT) VCHECK(o, std::isfinite(got_T), "evaluation at x=" << rstr(x) << " (" << kinds[q] << ") returned a non-finite value although the stored polynomial has a finite value there");
+    const R got = exact(got_T);
     const bool inside = has_int && x >= pts[(size_t)s] && x <= pts[(size_t)e - 1];
     if (!inside) {
       VCHECK(o, got == 0, "value " << rstr(got) << " at x=" << rstr(x) << " (" << kinds[q] << ") outside the closed support, expected 0");
@@ -199,13 +201,13 @@ int main(int argc, char **argv) {
       c.fden = one_of<i64>({2, 3, 4, 7, 10, 1000});
       c.fnum = pick(1, c.fden - 1);
       if (!exact_only && chance(30)) {
-        // scaled splines: moderate (2^+-20..200) or at the limits of the exponent range; 5%: the grid {-3/2, 1/2, 1} * 2^(emax-1),
-        // whose first interval is wider than the largest finite value while every grid point and every sum of neighbours is finite
+        // scaled splines: moderate (2^+-20..200) or at the limits of the exponent range; 5%: the grid {-3/2, 1/2, 1} * 2^emax,
+        // whose first interval is WIDER than the largest finite value (b - a overflows) while every grid point and every sum of two neighbours is finite
         int emax = c.type == 1 ? 127 : c.type == 2 ? 1023 : 16383;
         int r = (int)pick(0, 99);
         if (r < 50) c.sexp = (chance(50) ? 1 : -1) * pick(20, c.type == 1 ? 60 : 200);
         else if (r < 85) c.sexp = chance(50) ? pick(emax - 40, emax - 5) : -pick(emax - 60, emax - 10);
-        else { c.g.den = 2; c.g.off = -3; c.g.gaps = {4, 1}; c.sexp = emax - 1; c.s = gen_spline(3, (size_t)(c.order >= 7 ? 10 : c.order), chance(60) ? W_WHOLE : -1, co); }
+        else { c.g.den = 2; c.g.off = -3; c.g.gaps = {4, 1}; c.sexp = emax; c.s = gen_spline(3, (size_t)(c.order >= 7 ? 10 : c.order), chance(60) ? W_WHOLE : -1, co); }
       }
       return c;
     });
